@@ -8,7 +8,7 @@ for f in os.listdir(os.path.join(w, "out", "1")):
     src = os.path.join(w, "out", "1", f)
     if os.path.isfile(src) and os.path.getsize(src) < 200000:
         shutil.copy(src, d)
-json.dump({"property": pid, "what": what, "needs_to_manifest": needs, "round": 3,
+json.dump({"property": pid, "what": what, "needs_to_manifest": needs, "round": int(os.environ.get("SEED_ROUND", "3")),
            "confirmed": {"how": "tools/confirmseed.sh in the scratch worktree: git apply patch.diff; cargo test --offline (suite must pass); demonstration must fail; git checkout; demonstration must pass",
                          "result": conf},
            "produced_by": "independent sub-agent given only the property text and a scratch worktree"}, open(os.path.join(d, "meta.json"), "w"), indent=1)
